@@ -408,11 +408,14 @@ func (Encoder) AppendObjectData(dst []byte, o []byte) []byte {
 	//    to separate with existing content OR
 	// 3. existing content has already other fields
 	if o[0] == '{' {
-		if len(dst) > 1 {
-			dst = append(dst, ',')
-		}
 		o = o[1:]
-	} else if len(dst) > 1 {
+	}
+	if len(o) == 0 {
+		// Nothing to splice in (an embedded object that added no field):
+		// do not emit a separator either.
+		return dst
+	}
+	if len(dst) > 1 {
 		dst = append(dst, ',')
 	}
 	return append(dst, o...)
